@@ -1996,9 +1996,11 @@ func (s *Store) ReadFrom(r io.Reader) (int64, error) {
 
 	// Raft won't snapshot unless there is at least one unsnapshotted log entry,
 	// so prep that now before we do anything destructive.
-	if af, err := s.Noop("boot"); err != nil {
+	af, err := s.Noop("boot")
+	if err != nil {
 		return n, err
-	} else if err := af.Error(); err != nil {
+	}
+	if err := af.Error(); err != nil {
 		return n, err
 	}
 
@@ -2006,6 +2008,11 @@ func (s *Store) ReadFrom(r io.Reader) (int64, error) {
 	if err := s.db.Swap(f.Name(), s.dbConf.FKConstraints, true); err != nil {
 		return n, fmt.Errorf("error swapping database file: %v", err)
 	}
+
+	// The database has been replaced, so anything paying attention to the index
+	// at which the database last changed must see a new value.
+	s.dbAppliedIdx.Store(af.Index())
+	s.appliedTarget.Signal(af.Index())
 
 	// Swapping in a new database unregisters any registered CDC hooks, so signal that it
 	// needs to be reregistered on the next change.
